@@ -163,6 +163,10 @@ package schedule
 //@   partial loops
 //@   requires resourceInfo != nil && req != nil && wfNode(resourceInfo)
 //@   ensures[C07.plans-nonnil,C04,C05,C06,C33] (arr(result) == 0 || allocated(result)) && forall k :: 0 <= k && k < len(result) ==> result[k] != nil && allocated(result[k])
+//@   # necessary for an unchanged re-allocation to stay in place (C33): if the first plan is NUMA-local, it is on the
+//@   # NUMA node that holds the workload's old cores
+//@   ensures[C33.first-plan-numa] card(originCPUMap) > 0 && len(result) >= 1 && result[0].NUMANode != "" ==>
+//@        forall c string :: c in originCPUMap ==> resourceInfo.Capacity.NUMA[c] == result[0].NUMANode
 //@   # a NUMA-local round plans on exactly the free pieces of that NUMA node's cores, within that node's free memory,
 //@   # with the workload's old cores handed over for affinity
 //@   assert[C04.numa-round,C33] before call doGetCPUPlans#1: arg0 == originCPUMap && arg1 == cpuMap
@@ -189,6 +193,8 @@ package schedule
 //@     invariant arr(cpuPlans) == 0 || (fresh(cpuPlans) && allocated(cpuPlans))
 //@   loop 2:
 //@     modifies availableResource, availableResource.CPUMap, availableResource.NUMAMemory
+//@     invariant[C33.first-plan-numa] card(originCPUMap) > 0 && len(cpuPlans) >= 1 && cpuPlans[0].NUMANode != "" ==>
+//@        forall c string :: c in originCPUMap ==> resourceInfo.Capacity.NUMA[c] == cpuPlans[0].NUMANode
 //@     invariant availableResource != nil && allocated(availableResource) && (arr(cpuPlans) == 0 || (fresh(cpuPlans) && allocated(cpuPlans)))
 //@     invariant availableResource.CPUMap == pre(availableResource.CPUMap) && availableResource.NUMAMemory == pre(availableResource.NUMAMemory)
 //@        && availableResource.CPUMap != nil && availableResource.NUMAMemory != nil && availableResource.NUMAMemory != availableResource.CPUMap
@@ -199,12 +205,16 @@ package schedule
 //@                  && numaCPUMap[n][c] == resourceInfo.Capacity.CPUMap[c] - resourceInfo.Usage.CPUMap[c]
 //@   loop 3:
 //@     modifies availableResource, availableResource.CPUMap, availableResource.NUMAMemory
+//@     invariant[C33.first-plan-numa] card(originCPUMap) > 0 && len(cpuPlans) >= 1 && cpuPlans[0].NUMANode != "" ==>
+//@        forall c string :: c in originCPUMap ==> resourceInfo.Capacity.NUMA[c] == cpuPlans[0].NUMANode
 //@     invariant availableResource != nil && allocated(availableResource) && (arr(cpuPlans) == 0 || (fresh(cpuPlans) && allocated(cpuPlans)))
 //@     invariant availableResource.CPUMap == pre(availableResource.CPUMap) && availableResource.NUMAMemory == pre(availableResource.NUMAMemory)
 //@        && availableResource.CPUMap != nil && availableResource.NUMAMemory != nil && availableResource.NUMAMemory != availableResource.CPUMap
 //@     invariant forall k :: 0 <= k && k < len(cpuPlans) ==> cpuPlans[k] != nil && allocated(cpuPlans[k])
 //@   loop 4:
 //@     modifies nothing
+//@     invariant[C33.first-plan-numa] card(originCPUMap) > 0 && len(cpuPlans) >= 1 && cpuPlans[0].NUMANode != "" ==>
+//@        forall c string :: c in originCPUMap ==> resourceInfo.Capacity.NUMA[c] == cpuPlans[0].NUMANode
 //@     invariant arr(cpuPlans) == 0 || (fresh(cpuPlans) && allocated(cpuPlans))
 //@     invariant forall k :: 0 <= k && k < len(cpuPlans) ==> cpuPlans[k] != nil && allocated(cpuPlans[k])
 
